@@ -61,6 +61,7 @@ impl RawConnector {
                 "No feature is defined for any connection id.",
             ));
         }
+        let num_templates = feat_template_size;
 
         // Adjusts to a multiple of SIMD_SIZE for AVX2 compatibility.
         //
@@ -77,8 +78,9 @@ impl RawConnector {
             vec![INVALID_FEATURE_ID; (left_feat_ids_tmp.len() + 1) * feat_template_size];
 
         // The first row reserved for BOS/EOS is always an empty row with zero values.
-        right_feat_ids[..feat_template_size].fill(U31::default());
-        left_feat_ids[..feat_template_size].fill(U31::default());
+        // The padding lanes stay invalid so that the BOS/EOS pair is not counted there.
+        right_feat_ids[..num_templates].fill(U31::default());
+        left_feat_ids[..num_templates].fill(U31::default());
 
         for (trg, src) in right_feat_ids[feat_template_size..]
             .chunks_mut(feat_template_size)
